@@ -154,7 +154,7 @@ CLAIMED = {
     ),
     "C18": (
         "Histories of configure / reconfigure-enter / exit (normal, exceptional) / request / unknown-setting steps are "
-        "chosen step by step by solver variables and enumerated exhaustively up to 5 / 7 steps against a reference stack "
+        "chosen step by step by solver variables and enumerated exhaustively up to 5 / 6 steps against a reference stack "
         "model; a traced job carries symbolic timeout / retries through replace(), the context manager and the sender.",
         "Trusted: as C01.",
         "solver-enumerated histories (CrossHair/z3) + symbolic settings through the real code",
